@@ -104,6 +104,9 @@ func (p *Path) global(g *ssa.Global) *Value {
 	c := new(Value)
 	*c = zero(g.Type().(*types.Pointer).Elem())
 	p.globals[g] = c
+	if p.initDone && p.globalCells != nil && p.ex.pkgs[g.Pkg] {
+		p.globalCells[c] = g.Name()
+	}
 	return c
 }
 
